@@ -4,6 +4,7 @@ import base64
 import hashlib
 import math
 import re
+from fractions import Fraction
 from typing import Any, Optional
 
 
@@ -42,45 +43,45 @@ class BLOB:
         return hash((self.binary, self.format))
 
 
+SEXAGESIMAL_FRACTION_BASE = {
+    3: 60,  # :mm
+    5: 600,  # :mm.m
+    6: 3600,  # :mm:ss
+    8: 36000,  # :mm:ss.s
+    9: 360000,  # :mm:ss.ss
+}
+
+
 def str_to_num(s: str, fmt: str) -> Any[float, int]:
+    """Converts number text sent by a peer to a number.
+
+    Whatever the format of the property, a peer may send an integer,
+    a decimal or a sexagesimal number with `:`, `;` or blank as separator.
+    The sign applies to the whole sexagesimal magnitude.
+    """
     if s is None:
         return None
     if not isinstance(s, str):
         s = str(s)
+    s = s.strip()
 
-    sexagesimal_match = re.match(r"^%(\d*)\.(\d+)m$", fmt)
+    sexagesimal_match = re.match(
+        r"^([\-+]?)(\d+)[:; ](\d{2}(?:\.\d+)?)$", s
+    ) or re.match(r"^([\-+]?)(\d+)[:; ](\d{2})[:; ](\d{2}(?:\.\d+)?)$", s)
     if sexagesimal_match:
-        fraction_length = int(sexagesimal_match.groups()[1])
-        assert fraction_length in (
-            3,
-            5,
-            6,
-            8,
-            9,
-        ), f"Invalid sexagesimal number format: {fmt}"
+        sign, *fields = sexagesimal_match.groups()
+        magnitude = sum(
+            (Fraction(field) / 60**i for i, field in enumerate(fields)), Fraction(0)
+        )
+        return float(-magnitude if sign == "-" else magnitude)
 
-        regexps = {
-            3: r"^(\-?\d+)[:; ](\d{2})$",
-            5: r"^(\-?\d+)[:; ](\d{2}\.\d+)$",
-            6: r"^(\-?\d+)[:; ](\d{2})[:; ](\d{2})$",
-            8: r"^(\-?\d+)[:; ](\d{2})[:; ](\d{2}.\d+)$",
-            9: r"^(\-?\d+)[:; ](\d{2})[:; ](\d{2}.\d+)$",
-        }
+    if re.match(r"^[\-+]?\d+$", s):
+        return int(s)
 
-        num_match = re.match(regexps[fraction_length], s)
-        if not num_match:
-            raise ValueError("Cannot convert string to number")
-        num_match_groups = num_match.groups()
-        wholes = num_match_groups[0]
-        minutes = num_match_groups[1]
-        seconds = num_match_groups[2] if fraction_length in (6, 8, 9) else 0
-
-        return float(wholes) + (float(minutes) / 60) + (float(seconds) / 3600)
-
-    if "." in s:
+    if re.match(r"^[\-+]?(\d+\.\d*|\.\d+)$", s):
         return float(s)
 
-    return int(s)
+    raise ValueError("Cannot convert string to number")
 
 
 def num_to_str(n: Optional[float], fmt: str) -> Optional[str]:
@@ -90,28 +91,35 @@ def num_to_str(n: Optional[float], fmt: str) -> Optional[str]:
     sexagesimal_match = re.match(r"^%(\d*)\.(\d+)m$", fmt)
     if sexagesimal_match:
         fraction_length = int(sexagesimal_match.groups()[1])
-        assert fraction_length in (3, 5, 6, 8, 9)
+        assert (
+            fraction_length in SEXAGESIMAL_FRACTION_BASE
+        ), f"Invalid sexagesimal number format: {fmt}"
+        base = SEXAGESIMAL_FRACTION_BASE[fraction_length]
 
-        w = math.floor(n)
-        m = (n - w) * 60
+        # the sign applies to the whole magnitude; all the rest is done
+        # on an integral number of the smallest units the format shows,
+        # so that carries propagate (59.9 minutes is never rendered as :60)
+        sign = "-" if n < 0 else ""
+        wholes, fraction = divmod(round(abs(n) * base), base)
 
         if fraction_length == 3:
-            return f"{w}:{m:02.0f}"
+            return f"{sign}{wholes}:{fraction:02d}"
 
         if fraction_length == 5:
-            return f"{w}:{m:04.1f}"
-
-        mf = math.floor(m)
-        s = (m - mf) * 60
-        m = mf
+            return f"{sign}{wholes}:{fraction // 10:02d}.{fraction % 10:d}"
 
         if fraction_length == 6:
-            return f"{w}:{m:02d}:{s:02.0f}"
+            return f"{sign}{wholes}:{fraction // 60:02d}:{fraction % 60:02d}"
 
         if fraction_length == 8:
-            return f"{w}:{m:02d}:{s:04.1f}"
+            minutes, tenths = divmod(fraction, 600)
+            return f"{sign}{wholes}:{minutes:02d}:{tenths // 10:02d}.{tenths % 10:d}"
 
-        if fraction_length == 9:
-            return f"{w}:{m:02d}:{s:05.2f}"
+        minutes, hundredths = divmod(fraction, 6000)
+        return (
+            f"{sign}{wholes}:{minutes:02d}:"
+            f"{hundredths // 100:02d}.{hundredths % 100:02d}"
+        )
 
-    return fmt % n
+    # field width padding is not part of the number
+    return (fmt % n).strip()
